@@ -555,6 +555,69 @@ def unit_merge(ctx, T, variant):
         ctx.sample({'op': lines[3], 'implementation': impl[3]})
 
 
+def unit_time_of_today(ctx, T):
+    """BaseDateTimeParser.parse_time_of_today with the English hooks (get_swift_day, get_hour): the whole-match
+    groups, the time parser's result and the specific-time-of-day match are recorded / recomputed as the model's inputs."""
+    dtp = T.datetime_parser()
+    cfg = dtp.config
+    rx = T.regex
+    g = T.RegExpUtility.get_group
+    tp = cfg.time_parser
+    otp = tp.parse
+    calls = {}
+
+    def rec_t(er, ref=None):
+        r = otp(er, ref)
+        calls['t'] = {'ok': bool(r.value), 'timex': r.timex_str or '', 'future': r.value.future_value if r.value else None}
+        return r
+
+    parts = ['tonight', 'this morning', 'this afternoon', 'this evening', 'this night', 'last night', 'next morning',
+             'tomorrow night', 'yesterday afternoon', 'next night', 'last evening', 'in the morning']
+    times = [str(h) for h in range(0, 25)] + ['7:30', '12:00', '0:30', '13:45:10', '5 pm', '12 am', 'eight', 'twelve',
+                                             'half past 3', 'noon', 'midnight', "7 o'clock", '7ish']
+    srcs = []
+    for p_ in parts:
+        for t in times:
+            srcs += ['%s at %s' % (p_, t), '%s %s' % (t, p_), 'at %s %s' % (t, p_), '%s %s' % (p_, t)]
+    lines, impl, meta = [], [], []
+    tp.parse = rec_t
+    try:
+        for i, src in enumerate(srcs):
+            ref = ref_dt(REFS[i % len(REFS)])
+            calls.clear()
+            try:
+                a = dtres.res_str(dtp.parse_time_of_today(src, ref))
+            except Exception as e:
+                a = dtres.err_kind(e)
+            s_ = src.strip().lower()
+            wm = next(rx.finditer(cfg.simple_time_of_today_after_regex, s_), None)
+            if wm is None or wm.group() != s_:
+                wm = next(rx.finditer(cfg.simple_time_of_today_before_regex, s_), None)
+            if wm and wm.group() == s_:
+                hs = g(wm, 'hour', None)
+                f = ['whole', cps(hs) if hs else 'none', cps((g(wm, 'hournum') or '').lower()), '0', '-', '1,1,1,0,0,0']
+            elif 't' in calls:
+                t = calls['t']
+                f = ['parsed', 'none', '-', dtres.b(t['ok']), cps(t['timex']), dtres.dt_field(t['future']) if t['ok'] else '1,1,1,0,0,0']
+            else:
+                f = ['nothing', 'none', '-', '0', '-', '1,1,1,0,0,0']
+            m = next(rx.finditer(cfg.specific_time_of_day_regex, s_), None)
+            lines.append('\t'.join(['dt.tod', dtres.dt_field(ref)] + f + [dtres.b(m is not None), cps(m.group().lower()) if m else '-']))
+            impl.append(a)
+            meta.append((src, ref))
+    finally:
+        tp.parse = otp
+    model = common.driver(lines)
+    ctx.count('parse_time_of_today', len(lines))
+    for (src, ref), l, a, m in zip(meta, lines, impl, model):
+        if a.startswith('1|'):
+            ctx.nontriv(('tod', src))
+        if a != m:
+            dtres.report(ctx, 'correspondence', 'parse_time_of_today', 'parse_time_of_today(%r, %s): implementation %s, model %s' % (
+                src, ref, a, m), failing_input={'op': l, 'source': src, 'reference': str(ref), 'implementation': a, 'model': m})
+    ctx.sample({'op': lines[5], 'implementation': impl[5]})
+
+
 # ---------------------------------------------------------------- pipeline
 
 def one_entity(results, query, want_type):
@@ -851,4 +914,5 @@ def correspond(ctx):
     unit_zh_time(ctx, T)
     unit_resolution(ctx, T)
     unit_merge(ctx, T, variant)
+    unit_time_of_today(ctx, T)
     pipeline(ctx, variant)
